@@ -86,10 +86,12 @@ package proposal
 // recovery after a crash between the configuration write and the proposal write: a proposal whose change the
 // configuration already shows as applied completes in this step, whatever its predecessor's state
 //@   ensures {C07} applied-index-reached-completes: old(applyState(proposal)) == configapi.ProposalApplyPhase_APPLYING && readCfgOK && readCfgApplied >= proposal.TransactionIndex && err == nil ==> applyState(proposal) == configapi.ProposalApplyPhase_APPLIED && deviceSetCalls == old(deviceSetCalls)
+// recovery of the refusal handling: a FAILED proposal whose configuration has not yet moved past it moves it
+//@   ensures {C07} failed-proposal-moves-the-index: old(applyState(proposal)) == configapi.ProposalApplyPhase_FAILED && readCfgOK && readCfgApplied < proposal.TransactionIndex && (proposal.Status.PrevIndex == 0 || readCfgApplied == proposal.Status.PrevIndex) && err == nil ==> storedCfgApplied == proposal.TransactionIndex && deviceSetCalls == old(deviceSetCalls) && applyState(proposal) == configapi.ProposalApplyPhase_FAILED
 //@   ensures {C02,C07} applied-only-if-index-reached: applyState(proposal) == configapi.ProposalApplyPhase_APPLIED && old(applyState(proposal)) == configapi.ProposalApplyPhase_APPLYING ==> storedCfgApplied >= proposal.TransactionIndex
 //@   ensures {C02} apply-writes-no-values: cfgValueWrites == old(cfgValueWrites) && cfgCreates == old(cfgCreates)
 //@   ensures {C11} transient-not-failed: deviceSetCalls > old(deviceSetCalls) && (deviceCode == codes.Unavailable || deviceCode == codes.Canceled || deviceCode == codes.DeadlineExceeded || deviceCode == codes.PermissionDenied) ==> applyState(proposal) == configapi.ProposalApplyPhase_APPLYING && cfgStatusWrites == old(cfgStatusWrites) && proposalStatusWrites == old(proposalStatusWrites) && (deviceCode != codes.PermissionDenied ==> err != nil)
-//@   ensures {C11} refusal-attempts-record: deviceSetCalls > old(deviceSetCalls) && deviceCode != codes.OK && deviceCode != codes.Unavailable && deviceCode != codes.Canceled && deviceCode != codes.DeadlineExceeded && deviceCode != codes.PermissionDenied ==> cfgStatusWrites == old(cfgStatusWrites) + 1
+//@   ensures {C11} refusal-attempts-record: deviceSetCalls > old(deviceSetCalls) && deviceCode != codes.OK && deviceCode != codes.Unavailable && deviceCode != codes.Canceled && deviceCode != codes.DeadlineExceeded && deviceCode != codes.PermissionDenied ==> proposalStatusWrites == old(proposalStatusWrites) + 1 && cfgStatusWrites <= old(cfgStatusWrites) + 1
 //@   ensures {C11} refusal-recorded: deviceSetCalls > old(deviceSetCalls) && err == nil && deviceCode != codes.OK && deviceCode != codes.Unavailable && deviceCode != codes.Canceled && deviceCode != codes.DeadlineExceeded && deviceCode != codes.PermissionDenied ==> applyState(proposal) == configapi.ProposalApplyPhase_FAILED && proposal.Status.Phases.Apply.Failure != nil && proposal.Status.Phases.Apply.Failure.Type == failureOfCode(deviceCode) && storedCfgApplied == proposal.TransactionIndex
 // write order on a refusal: the applied index may pass a refused change only once the refusal is on record,
 // otherwise a crash (or a lost write) between the two turns the refused change into an APPLIED one on restart
